@@ -26,7 +26,11 @@ size_t g_str_k;
 size_t g_last_strlen;	/* ghost: result of the most recent strlen() */
 const char *g_last_strlen_arg;	/* ... and its argument (-DVERIF_STRLEN_RECORD_ARG) */
 #ifndef VERIF_NO_STRLEN
-size_t strlen(const char *s)
+static size_t verif_strlen_impl(const char *s, _Bool record);
+size_t strlen(const char *s) { return verif_strlen_impl(s, 1); }
+/* (the searching functions below measure with record == 0: they must not disturb the ghosts that remember what the
+ * CODE measured) */
+static size_t verif_strlen_impl(const char *s, _Bool record)
 {
 	__CPROVER_assert(s != NULL, "strlen: non-NULL argument");
 	size_t n = nondet_size_t();
@@ -57,13 +61,17 @@ size_t strlen(const char *s)
 	 * in their last byte: strlen of such a buffer is at most 255) */
 	__CPROVER_assume(n <= 255 || s[255] != 0);
 #ifdef VERIF_STRLEN_RECORD
-	g_last_strlen = n;
+	if (record) g_last_strlen = n;
 #endif
 #ifdef VERIF_STRLEN_RECORD_ARG
-	g_last_strlen_arg = s;
+	if (record) g_last_strlen_arg = s;
 #endif
+	(void)record;
 	return n;
 }
+#define VERIF_QUIET_STRLEN(s) verif_strlen_impl((s), 0)
+#else
+#define VERIF_QUIET_STRLEN(s) strlen(s)
 #endif /* VERIF_NO_STRLEN */
 
 /* snprintf shim: see prelude.h.  Writes a NUL-terminated, non-empty string
@@ -151,7 +159,7 @@ char *strcpy(char *dst, const char *src)
 _Bool nondet_bool(void);
 char *strchr(const char *s, int c)
 {
-	size_t n = strlen(s);
+	size_t n = VERIF_QUIET_STRLEN(s);
 	if ((char)c == 0)
 		return (char *)s + n;
 	if (nondet_bool())
@@ -162,7 +170,7 @@ char *strchr(const char *s, int c)
 }
 char *strrchr(const char *s, int c)
 {
-	size_t n = strlen(s);
+	size_t n = VERIF_QUIET_STRLEN(s);
 	if ((char)c == 0)
 		return (char *)s + n;
 	if (nondet_bool())
@@ -173,8 +181,8 @@ char *strrchr(const char *s, int c)
 }
 char *strstr(const char *hay, const char *needle)
 {
-	size_t n = strlen(hay);
-	(void)strlen(needle);
+	size_t n = VERIF_QUIET_STRLEN(hay);
+	(void)VERIF_QUIET_STRLEN(needle);
 	if (nondet_bool())
 		return NULL;
 	size_t k = nondet_size_t();
@@ -183,8 +191,8 @@ char *strstr(const char *hay, const char *needle)
 }
 char *strpbrk(const char *s, const char *accept)
 {
-	size_t n = strlen(s);
-	(void)strlen(accept);
+	size_t n = VERIF_QUIET_STRLEN(s);
+	(void)VERIF_QUIET_STRLEN(accept);
 	if (nondet_bool())
 		return NULL;
 	size_t k = nondet_size_t();
